@@ -131,6 +131,15 @@ PROPS = {
         "level_note": "Trusted: Coq kernel; model coq/Model/MVT.v; scraped variants; extraction + driver; harness with its own MVT encoder and its own statement of the join semantics. The CSV reader and GeoValue::parse_str typing are tested, not modelled. Print Assumptions: closed.",
         "partial": "the join itself (Runner::run, CSV typing) is tested at spec level; frequency-sorted table construction (PropertyManager::from_iter) is abstracted - the theorems hold for any tables",
     },
+    "C12": {
+        "cmd": "c12",
+        "theorems": ["C12_versatiles", "C12_pmtiles", "C12_torn_field"],
+        "nontrivial": lambda l: (l.startswith("c12.vt ") or l.startswith("c12.pm ")) or (l.startswith("c12.") and l.endswith("err")) or (l.startswith("c12.vthdr") and not l.endswith(" 0")),
+        "rule": "tile sets of 6 shapes (block-border, duplicates, scattered, distant blocks, irregular, many blocks so that the compressed block index exceeds 255 bytes) x 3 compressions are written by VersaTilesWriter and PMTilesWriter into a recording DataWriterTrait; c12.vt / c12.pm lines carry the recorded operation sequence and the extracted Coq predicate vt_wfb / pm_wfb must accept it (the hypothesis of the theorems); for pmtiles the model also computes which states (every operation boundary, every byte cut of the final header write) pass pm_view and the list must equal the states PMTilesReader::open_reader accepts; c12.vthdr / c12.pmhdr lines compare the implementation's header parsers with the model's on every torn final header; the premise about decompress_brotli (rejects every strict prefix of the block index) is validated on every file; spec level: EVERY crash state (every operation prefix x every byte cut of the next operation, incl. the torn final header overlaying the old bytes) is materialised and opened with the real reader: it must fail, or return every source tile intact",
+        "level_text": "Proved in Coq for every operation sequence of the recorded shape, every number of completed operations and every byte cut: versatiles - if open_reader accepts the bytes on disk they are exactly the complete file (so a torn header is accepted only when the unwritten bytes are zero anyway); pmtiles - if the header checks pass, the reader sees the same ranges, counts, compressions and data bytes as in the complete file. Big-endian torn-field lemma: a partially written length never exceeds the final length. Tie to the code: the shape predicates are evaluated on every recorded sequence; header parsers are compared on all torn headers; exhaustive crash-state enumeration against the real readers.",
+        "level_note": "Trusted: Coq kernel; model coq/Model/Crash.v (file = byte list, holes read as zero, an interrupted operation persists a prefix of its bytes, operations persist in order); extraction + driver; harness and its recording writer. Assumed about external code and validated on every run: decompress_brotli rejects the empty input and all strict prefixes of the block index. Print Assumptions: closed.",
+        "partial": "write reordering by the OS page cache (later operations reaching the disk before earlier ones) is outside the model: the writers issue no fsync, so the property is about prefixes of the operation sequence, as its quantifier says; pmtiles header bytes 99..126 (tile type, zoom range, bounds) of an accepted torn file may still be zero - tiles are intact, tile type then reads as BIN",
+    },
     "C13": {
         "cmd": "c13",
         "theorems": ["C13_gen_positional_read", "C13_read_range", "C13_cached_index_lookup"],
